@@ -57,3 +57,10 @@ Example C17_example :
   auth_func [115; 51] (Some [98; 101; 97; 114; 101; 114; 32; 83; 51]) = false /\   (* "bearer S3" *)
   auth_func [115; 51] (Some [98; 101; 97; 114; 101; 114; 32; 115; 51; 32]) = false. (* "bearer s3 " *)
 Proof. vm_compute. repeat split. Qed.
+
+(* every remaining property theorem of this file *)
+Print Assumptions C17_missing_header_refused.
+Print Assumptions C17_other_services_unaffected.
+Print Assumptions C17_override_decides.
+Print Assumptions C17_tls_mutually_exclusive.
+Print Assumptions C17_tls_hostname.
